@@ -41,6 +41,7 @@ REAL = Prim("Real")
 ANY = Prim("Any")
 STR = Prim("Str")
 NONE = Prim("None")
+FOREIGN = Prim("Foreign")     # a value of some type that is neither ordered against nor equal to the numeric keys (C09 probes)
 
 
 class SeqS(Sort):
@@ -117,6 +118,8 @@ def z(sort):
         r = _S
     elif sort == NONE:
         r = _U
+    elif sort == FOREIGN:
+        r = z3.DeclareSort("Foreign")
     elif isinstance(sort, SeqS):
         d = z3.Datatype(_san(k))
         d.declare("mk", ("len", z3.IntSort()), ("arr", z3.ArraySort(z3.IntSort(), z(sort.elem))))
